@@ -503,6 +503,13 @@ static int skel_case(const char *path, int nframes)
 	mod = &ctx->m.mod;
 	if (vrng_chance(40))
 		vary_loops(mod);
+	if (vrng_chance(30) && ctx->m.xtra) {
+		/* extreme C5 speeds: the mixer step leaves its supported range and the voice is skipped */
+		static const double v[] = { 1.0, 3.0, 12.0, 60.0, 400.0, 250000.0 };
+		for (i = 0; i < mod->smp; i++)
+			if (vrng_chance(35))
+				ctx->m.xtra[i].c5spd = v[vrng_below(6)];
+	}
 	g_ctx = ctx;
 	g_nsnap = mod->smp;
 	g_snap = (struct snap *)calloc(mod->smp > 0 ? mod->smp : 1, sizeof(struct snap));
